@@ -584,6 +584,21 @@ func (f *Frame) callLib(i *ssa.Call, g *ssa.Function, args []Val, st *State, r s
 		return Val{Tup: []Val{tv("(intOf "+args[0].T+")", "Int"), Val{T: errv, S: "Int"}}}
 	case "log.Printf", "log.Println", "log.Print":
 		return Val{}
+	case "sort.Strings":
+		s := args[0]
+		res := Val{T: c.fresh("sorted", s.S), S: s.S}
+		c.assume(r, "(= "+c.slLen(res)+" "+c.slLen(s)+")")
+		c.nfresh++
+		pm := fmt.Sprintf("sortperm!%d", c.nfresh)
+		c.decls = append(c.decls, "(declare-fun "+pm+" (Int) Int)")
+		c.assume(r, "(forall ((a! Int)) (! (=> (and (<= 0 a!) (< a! "+c.slLen(res)+")) (and (<= 0 ("+pm+" a!)) (< ("+pm+" a!) "+c.slLen(s)+") (= (select "+c.slArr(res)+" a!) (select "+c.slArr(s)+" ("+pm+" a!))))) :pattern ((select "+c.slArr(res)+" a!))))")
+		c.assume(r, "(forall ((a! Int) (b! Int)) (! (=> (and (<= 0 a!) (< a! b!) (< b! "+c.slLen(res)+")) (and (not (= ("+pm+" a!) ("+pm+" b!))) (not (strlt (select "+c.slArr(res)+" b!) (select "+c.slArr(res)+" a!))))) :pattern (("+pm+" a!) ("+pm+" b!))))")
+		if s.Origin != nil {
+			c.store(st, s.Origin, res)
+		} else {
+			c.errorf("sort.Strings on a slice without tracked origin")
+		}
+		return Val{}
 	case "sort.Ints":
 		s := args[0]
 		res := Val{T: c.fresh("sorted", s.S), S: s.S}
